@@ -104,7 +104,12 @@ class Index:
                 except (SyntaxError, UnicodeDecodeError) as e:
                     self.parse_errors.append(f"{rel}: {e}")
                     continue
+                norm = {"renamed": {}, "inlined": {}}
+                if os.environ.get("BNPSA_NO_NORMALIZE") != "1":
+                    from . import normalize
+                    norm = normalize.normalize_module(tree, mod)
                 mi = ModuleInfo(mod, path, rel, src, tree)
+                mi.norm = norm
                 mi.is_pkg = fn == "__init__.py"
                 self._index_module(mi)
                 self.modules[mod] = mi
